@@ -756,6 +756,74 @@ static void op_run2(Cur &c, Out &o)
 #undef RUN2
 }
 
+// ------------------------------------------------------------------------------ runshared: one generator object, two calls
+// `runshared dir assort init K u u <recs> r1 r2 maxit nconv seed naff aff…` — the caller keeps ONE generator object
+// built from the seed and hands it to two successive calls of `multitensor_factorization` (r1 realizations, then
+// r2).  The generator is a by-value parameter: each call starts from the state the caller's object has, which the
+// call does not advance.  The second result is reported (the caller compares it with a plain `run`).
+template <class D, class Aff, class Init>
+void op_runshared_t(Cur &c, Out &o)
+{
+    size_t K = c.nat();
+    std::string lt = c.tok(), wt = c.tok();
+    if (lt != "u" || wt != "u")
+        throw std::logic_error("runshared needs size_t labels and weights");
+    auto r = parse_recs<size_t, size_t>(c);
+    size_t r1 = c.nat(), r2 = c.nat(), maxit = c.nat(), nconv = c.nat();
+    long long seed = c.integer();
+    auto aff0 = c.flts();
+    size_t N = utils::get_num_vertices(r.starts, r.ends);
+    utils::RandomGenerator<> rng{(std::time_t)seed};
+    for (int pass = 0; pass < 2; pass++)
+    {
+        Matrix<double> u(N, K), v(N, K);
+        std::vector<size_t> labels;
+        std::vector<double> aff(aff0);
+        utils::Report rep = multitensor_factorization<D, Aff, Init>(
+            r.starts, r.ends, r.weights, pass == 0 ? r1 : r2, maxit, nconv, labels, u, v, aff, rng);
+        if (pass == 1)
+        {
+            o.kv("err", "0");
+            o.list("labels", labels);
+            o.dl("u", u.get_data());
+            o.dl("v", v.get_data());
+            o.dl("aff", aff);
+            o.list("iters", rep.vec_iter);
+            std::vector<std::string> rs(rep.vec_term_reason.begin(), rep.vec_term_reason.end());
+            o.list("reasons", rs);
+            o.dl("L2s", rep.vec_L2);
+            o.kv("nreal", std::to_string(rep.nof_realizations));
+            o.kv("maxL2", hx(rep.max_L2()));
+        }
+    }
+}
+
+static void op_runshared(Cur &c, Out &o)
+{
+    using namespace initialization;
+    bool dir = c.boolean(), assort = c.boolean();
+    std::string init = c.tok();
+#define RUNS(D, A)                                                            \
+    do                                                                        \
+    {                                                                         \
+        if (init == "r")                                                      \
+            op_runshared_t<D, A, init_symmetric_tensor_random>(c, o);         \
+        else if (init == "f")                                                 \
+            op_runshared_t<D, A, init_symmetric_tensor_from_initial<A>>(c, o); \
+        else                                                                  \
+            throw std::logic_error("bad init kind");                          \
+    } while (0)
+    if (dir && !assort)
+        RUNS(boost::bidirectionalS, SymmetricTensor<double>);
+    else if (dir && assort)
+        RUNS(boost::bidirectionalS, DiagonalTensor<double>);
+    else if (!dir && !assort)
+        RUNS(boost::undirectedS, SymmetricTensor<double>);
+    else
+        RUNS(boost::undirectedS, DiagonalTensor<double>);
+#undef RUNS
+}
+
 // ------------------------------------------------------------------------------ validate
 
 template <class D, class Aff, class Init>
@@ -1057,6 +1125,8 @@ int main(int argc, char **argv)
                 op_run(c, o);
             else if (op == "run2")
                 op_run2(c, o);
+            else if (op == "runshared")
+                op_runshared(c, o);
             else if (op == "validate")
                 op_validate(c, o);
             else if (op == "rng")
